@@ -128,7 +128,7 @@ def run(tier):
         dict(row='exchange_int64_synchronized', contract='exactly `xchg [address], new` (implicitly locked) followed by `mov old, new`; no other memory access'),
         dict(function='ObjectHashMap::rehash', contract='requires only the GC-stable part of wf; ensures wf, same abstract map, no tombstones, epoch current'),
     ]
-    not_decided = ['mutual exclusion / no lost wake-up / join semantics in every interleaving', 'WaitLists::{block, wakeup, wakeup_all} and the per-key thread queues',
+    not_decided = ['mutual exclusion / no lost wake-up / join semantics in every interleaving', 'WaitLists::block / enqueue (managed handles, parking) and the per-key thread queues under concurrency (their sequential behaviour is executed by the runner: sampled)',
                    'atomic operations of the optimizing generator (pkgs/boots, Dora) and of the arm64 macro assembler']
     return vprop.run_verus_property(PROP, tier, units, runner=runner, assumptions=assumptions, samples=samples, not_decided=not_decided, pre_undecided=pre_und,
                                     pre_violations=kv, extra_cov=kcov, extra_obligations=kobl)
